@@ -76,6 +76,9 @@ def jobs(tier):
             if q and (int(mv) + k) % 2:
                 continue
             out.append(("cli.v%s.out-%d" % (mv, k), "job_cli_out", dict(mv=mv, out=k)))
+    for which in ["1", "2a", "3a"] + ([] if q else ["2c", "3c"]):
+        out.append(("hardlinked-names.%s" % which, "job_special", dict(which=which, kind="hardlink")))
+        out.append(("tilde-root.%s" % which, "job_special", dict(which=which, kind="tilde")))
     for which in ["1", "2a", "3a"]:
         out.append(("history-plen.%s" % which, "job_history_plen", dict(which=which, P1=32768, P2=16384)))
     for which in ["1", "2a", "3a"]:
@@ -115,6 +118,45 @@ def job_cli_out(E, mv, out, _mutants=None):
             return
     E.check(ben_equal(infos[0], infos[1]), "C08.cli.info-equal",
             "output location %s (-o %r from %s) changes the info dictionary" % (label, outv, cwd))
+    for k in WITNESSES:
+        E.witnesses.setdefault(k, True)
+
+
+def job_special(E, which, kind, _mutants=None):
+    """Two further things the info dictionary must not depend on: whether two names of the payload share one inode
+    (hard links) or are independent copies, and whether a payload directory called '~' is given as '~' or by its
+    absolute path."""
+    P = 16384
+    s0 = E.int("s0", 1, 2 * P)
+    s1 = E.int("s1", 0, P)
+    infos = []
+    for run in (0, 1):
+        if kind == "hardlink":
+            fs = AFS(cwd="/cwd", order="reversed" if run else "sorted")
+            fs.add("/data/name/a", ("f", 0), s0)
+            if run:
+                fs.mkdirs("/data/name/d")
+                fs.link("/data/name/a", "/data/name/d/b")
+                del fs.log[:]
+            else:
+                fs.add("/data/name/d/b", ("f", 0), s0)         # an independent copy with the same bytes
+            fs.add("/data/name/c", ("f", 1), s1)
+            arg = "/data/name"
+        else:
+            fs = AFS(cwd="/data" if run else "/cwd")
+            fs.add("/data/~/a", ("f", 0), s0)
+            fs.add("/data/~/d/b", ("f", 1), s1)
+            fs.add(fs.home + "/a", ("h", 0), 5)                 # what '~' would be if it were expanded
+            arg = "~" if run else "/data/~"
+        w = World(fs, mutants=_mutants)
+        try:
+            infos.append(cr.create(w, which, path=arg, piece_length=P, progress=0).meta["info"])
+        except Exception as ex:  # noqa: BLE001
+            E.fail("C08.no-exception", "%s: %s: %s" % (kind, type(ex).__name__, ex))
+            return
+    E.check(ben_equal(infos[0], infos[1]), "C08.special.info-equal",
+            {"hardlink": "two names on one inode give another info dictionary than two independent copies",
+             "tilde": "a directory called '~' gives another info dictionary when it is given as '~'"}[kind])
     for k in WITNESSES:
         E.witnesses.setdefault(k, True)
 
@@ -216,6 +258,8 @@ def replay(params, model, notes, workdir, seed):
     import contextlib
     if "out" in params:
         return _replay_cli_out(params, model, workdir, seed)
+    if "kind" in params:
+        return _replay_special(params, model, workdir, seed)
     if "P1" in params:
         return _replay_plen(params, model, workdir, seed)
     if "mut" in params:
@@ -325,6 +369,45 @@ def _replay_cli_out(params, model, workdir, seed):
         finally:
             os.chdir(old)
     return [] if list(infos[0].items()) == list(infos[1].items()) else ["C08.cli.info-equal"]
+
+
+def _replay_special(params, model, workdir, seed):
+    import io
+    import contextlib
+    kind, which = params["kind"], params["which"]
+    s0, s1 = int(model["s0"]), int(model["s1"])
+    a, c = refconc.content(("f", 0), s0, seed), refconc.content(("f", 1), s1, seed)
+    infos = []
+    old = os.getcwd()
+    oldhome = os.environ.get("HOME")
+    for run in (0, 1):
+        root = os.path.join(workdir, "r%d" % run)
+        os.makedirs(root + "/cwd")
+        if kind == "hardlink":
+            refconc.write_file(root + "/data/name/a", a)
+            os.makedirs(root + "/data/name/d")
+            if run:
+                os.link(root + "/data/name/a", root + "/data/name/d/b")
+            else:
+                refconc.write_file(root + "/data/name/d/b", a)
+            refconc.write_file(root + "/data/name/c", c)
+            arg, cwd = root + "/data/name", root + "/cwd"
+        else:
+            refconc.write_file(root + "/data/~/a", a)
+            refconc.write_file(root + "/data/~/d/b", c)
+            refconc.write_file(root + "/home/a", b"home!")
+            os.environ["HOME"] = root + "/home"
+            arg, cwd = ("~", root + "/data") if run else (root + "/data/~", root + "/cwd")
+        os.chdir(cwd)
+        try:
+            infos.append(cr.norm_real(cr.real_create(which, path=arg, piece_length=16384).sort_meta()["info"]))
+        except Exception as ex:  # noqa: BLE001
+            return ["C08.no-exception: %s: %s" % (type(ex).__name__, ex)]
+        finally:
+            os.chdir(old)
+            if oldhome is not None:
+                os.environ["HOME"] = oldhome
+    return [] if list(infos[0].items()) == list(infos[1].items()) else ["C08.special.info-equal"]
 
 
 def _replay_plen(params, model, workdir, seed):
